@@ -48,6 +48,27 @@ def _verification_phases(phases: list[dict]) -> list[dict]:
     return out
 
 
+def directed_plan(info: dict) -> list[tuple]:
+    """(expr, partner, lowest step, highest step) of the directed runs that open every batch: every
+    ordered pair of colliding keys; pairs whose names (hence entries) have the same size get one kill
+    point in each 60-step stratum, the others two kill points."""
+    families: dict[str, list[int]] = {}
+    for i, fam in enumerate(info["families"]):
+        if fam:
+            families.setdefault(fam, []).append(i)
+    plan = []
+    for fam in sorted(families):
+        for j in families[fam]:
+            for partner in families[fam]:
+                if partner == j:
+                    continue
+                if len(info["pool"][j]) == len(info["pool"][partner]):
+                    plan += [(j, partner, lo, lo + 60) for lo in range(0, 480, 60)]
+                else:
+                    plan += [(j, partner, 0, 240), (j, partner, 240, 600)]
+    return plan
+
+
 def generate(seed_: int, run: int, info: dict) -> dict:
     rng = core.run_rng(PROP, seed_, run)
     n_pool = len(info["pool"])
@@ -55,6 +76,14 @@ def generate(seed_: int, run: int, info: dict) -> dict:
     for i, fam in enumerate(info["families"]):
         if fam:
             families.setdefault(fam, []).append(i)
+    plan = directed_plan(info)
+    if run < len(plan):
+        # directed placement: the complete entry of a colliding key is on disk, then the writer of the
+        # other key is killed after a number of bytes drawn from one stratum of the file
+        j, partner, lo, hi = plan[run]
+        lanes = core.hash_configs(seed_, run)
+        cfg = next(c for c in lanes if c.startswith("HU")) if info["families"][j].startswith("str:") else lanes[0]
+        return sweep_workload(cfg, j, "user", rng.randrange(lo, hi), partner, prefill=True)
     subset: list[int] = []
     if rng.random() < 0.75:
         fam = rng.choice(sorted(families))
@@ -107,22 +136,24 @@ def generate(seed_: int, run: int, info: dict) -> dict:
     return {"phases": phases, "fault_mode": fault_mode, "mode": mode}
 
 
-def sweep_workload(cfg: str, j: int, writer: str, n: int, partner: int | None) -> dict:
+def sweep_workload(cfg: str, j: int, writer: str, n: int, partner: int | None, prefill: bool = False) -> dict:
     """Directed fault placement: one writer, byte-wise chunks, killed at scheduler step ``n``;
     then a fault-free user asks for the same expression (and a colliding partner)."""
     quiet = {"kills": 0, "errors": 0, "chunk_modes": [0], "pid_base": 4100, "max_steps": 20000}
     calls = [{"expr": j, "dir": "shared"}]
     if partner is not None:
         calls.append({"expr": partner, "dir": "shared"})
-    return {
-        "phases": [
-            {"cfg": cfg, "actors": [{"kind": writer, "calls": [{"expr": j, "dir": "shared"}]}],
-             "knobs": {"kills": 1, "errors": 0, "chunk_modes": [4], "kill_at_step": n, "pid_base": 4000,
-                       "max_steps": 400000}},
-            {"cfg": cfg, "actors": [{"kind": "user", "calls": calls}], "knobs": quiet},
-        ],
-        "fault_mode": True, "sweep": [cfg, j, writer, n],
-    }
+    phases = [
+        {"cfg": cfg, "actors": [{"kind": writer, "calls": [{"expr": j, "dir": "shared"}]}],
+         "knobs": {"kills": 1, "errors": 0, "chunk_modes": [4], "kill_at_step": n, "pid_base": 4000,
+                   "max_steps": 400000}},
+        {"cfg": cfg, "actors": [{"kind": "user", "calls": calls}], "knobs": quiet},
+    ]
+    if partner is not None and prefill:
+        # the colliding partner's entry is complete on disk before the writer that gets killed starts
+        phases.insert(0, {"cfg": cfg, "actors": [{"kind": "user", "calls": [{"expr": partner, "dir": "shared"}]}],
+                          "knobs": dict(quiet, pid_base=3900)})
+    return {"phases": phases, "fault_mode": True, "sweep": [cfg, j, writer, n]}
 
 
 def preempt_workload(cfg: str, first: dict, second: dict, plan: list[int], mode: str) -> dict:
@@ -277,14 +308,21 @@ class Context:
         items = []
         hu = core.hash_configs(self.seed, 0)[2]
         for j, fam in enumerate(self.info["families"]):
-            partner = next((k for k in families.get(fam, []) if k != j), None)
+            others = [k for k in families.get(fam, []) if k != j]
+            partner = others[0] if others else None
             for writer, cfg in (("user", hu if j % 2 else "H0"), ("legacy", "H0" if j % 2 else hu)):
                 dry = execute(self.zy, self.seed, 0, sweep_workload(cfg, j, writer, -1, partner), tag=f"-dry{os.getpid()}")
                 steps = dry["phases"][0]["steps"]
                 for n in range(steps):
                     if steps <= 1500 or n < 300 or n % 5 == 0 or n > steps - 40:
-                        items.append((cfg, j, writer, n, partner))
-        items.sort(key=lambda it: (it[3], it[1], it[2]))  # low offsets of every file first
+                        items.append((cfg, j, writer, n, partner, False))
+                if writer == "user" and steps <= 1500:
+                    # the same sweep over a directory that already holds the complete entry of a colliding
+                    # key (file names collide when PYTHONHASHSEED is unset), for every such key
+                    for other in others:
+                        for n in range(steps):
+                            items.append((hu, j, writer, n, other, True))
+        items.sort(key=lambda it: (it[3], it[1], it[2], it[5]))  # low offsets of every file first
         return items
 
     def _preempt_items(self) -> list[tuple]:
@@ -328,8 +366,8 @@ class Context:
             cfg, first, second, plan, mode = self.preempt[r]
             workload = preempt_workload(cfg, first, second, plan, mode)
         elif r < len(self.preempt) + len(self.sweep):
-            cfg, j, writer, n, partner = self.sweep[r - len(self.preempt)]
-            workload = sweep_workload(cfg, j, writer, n, partner)
+            cfg, j, writer, n, partner, prefill = self.sweep[r - len(self.preempt)]
+            workload = sweep_workload(cfg, j, writer, n, partner, prefill)
         else:
             workload = generate(self.seed, r - len(self.sweep) - len(self.preempt), self.info)
         out = execute(self.zy, self.seed, r, workload)
